@@ -272,7 +272,7 @@ func catalogString(ms []manifest.RegionMeta) string {
 
 type c24Oracle struct {
 	w       *World
-	prev    []manifest.RegionMeta          // catalog after the previous step
+	prev    []manifest.RegionMeta           // catalog after the previous step
 	state   map[uint64]manifest.RegionState // last state seen through the store's region hooks
 	gone    map[uint64]bool                 // ids whose removal was reported by the hooks
 	evPos   int
